@@ -18,12 +18,12 @@ vz.gridM f:# m:# rows:f.0?(vector (tuple int m)) = vz.GridM;
 RULE = ("per item and variant: every reader (TL1 bare/boxed, TL2, JSON) on mutated encodings, hostile 32-bit counts (2^31, 2^32-1, len+1...), hostile TL2 sizes "
         "(0xfe/0xff forms, huge sizes, 200-deep size nesting), random byte strings, JSON nesting bombs / long literals / truncations; the six function-result "
         "transcoders on hostile input. Monitors: recover() around every call (panic = violation), journaled child with a watchdog and a memory ulimit "
-        "(death = violation attributed to the item), runtime.MemStats TotalAlloc delta on every 7th read of inputs <= 1 KiB in sanity builds: "
+        "(death = violation attributed to the item, except while the harness produces its own FillRandom values and their encodings: that is C18's subject), runtime.MemStats TotalAlloc delta on every 7th read of inputs <= 1 KiB in sanity builds: "
         "delta <= 1 MiB + maxElemSize*len^2. Short TL1 encodings additionally with every pair of words set to (0, 2^20 / 2^23) - empty elements next to a huge "
         "count - each measured against the allocation envelope; a crafted schema of nat-sized tuples nested in counted containers. distinct_nontrivial = distinct (item, reader, outcome).")
 
 
 def run(ctx):
     codec.simple_check(ctx, "c08", RULE, [("types", "types", 150), ("reads", "reads", 100000), ("allocation samples", "alloc_samples", 5000),
-                                          ("transcoder inputs", "transcoder_inputs", 1000)], 16, 120, count_keys=("reads", "transcoder_inputs"), mem_gb=4, random_quick=3, random_thorough=30, oom_is_violation=True,
+                                          ("transcoder inputs", "transcoder_inputs", 1000)], 16, 120, count_keys=("reads", "transcoder_inputs"), mem_gb=4, random_quick=3, random_thorough=30, oom_is_violation=True, advisory_deaths=("c08-values", "fill-random"),
                        extra_texts=[("containers", schemagen.PRELUDE + CONTAINERS)])
